@@ -151,3 +151,48 @@ impl Drop for Scratch {
 pub fn cleanup_scratch_base() {
     let _ = std::fs::remove_dir_all(scratch_base());
 }
+
+/// Holds a handle whose Drop may panic (write handles publish in Drop): if a panic is already
+/// unwinding through the holder, the handle is leaked instead of dropped, so that the FIRST panic
+/// reaches catch_unwind and is reported instead of aborting the process with a double panic.
+pub struct Held<T>(std::mem::ManuallyDrop<T>);
+
+pub fn hold<T>(t: T) -> Held<T> {
+    Held(std::mem::ManuallyDrop::new(t))
+}
+
+impl<T> std::ops::Deref for Held<T> {
+    type Target = T;
+    fn deref(&self) -> &T {
+        &self.0
+    }
+}
+
+impl<T> std::ops::DerefMut for Held<T> {
+    fn deref_mut(&mut self) -> &mut T {
+        &mut self.0
+    }
+}
+
+impl<T> Drop for Held<T> {
+    fn drop(&mut self) {
+        if !std::thread::panicking() {
+            unsafe { std::mem::ManuallyDrop::drop(&mut self.0) }
+        }
+    }
+}
+
+impl<T: std::io::Write> std::io::Write for Held<T> {
+    fn write(&mut self, buf: &[u8]) -> std::io::Result<usize> {
+        self.0.write(buf)
+    }
+    fn flush(&mut self) -> std::io::Result<()> {
+        self.0.flush()
+    }
+}
+
+impl<T: std::io::Seek> std::io::Seek for Held<T> {
+    fn seek(&mut self, pos: std::io::SeekFrom) -> std::io::Result<u64> {
+        self.0.seek(pos)
+    }
+}
